@@ -655,7 +655,7 @@ func vfC19Script(t *testing.T, r *vfRand, trial int) {
 	}
 	coq := vfC19Render(index.IndexFormatVersion, index.NextIndexFormatVersion, dir, recs)
 	nontrivial := classes["drop"] && classes["reload"]
-	vfCase(coq, vfKey(human), nontrivial, append(cls, "script"), map[string]any{"dir": dir, "history": human})
+	vfCase("(XW "+coq+")", vfKey(human), nontrivial, append(cls, "script"), map[string]any{"dir": dir, "history": human})
 }
 
 func vfC19Vfp(t *testing.T, r *vfRand) {
@@ -695,7 +695,7 @@ func vfC19Vfp(t *testing.T, r *vfRand) {
 			vfOracleFail("versionFromPath-wrong", fmt.Sprintf("versionFromPath(%q) = (%q,%d), expected (%q,%d)", p, name, ver, want, v), map[string]any{"path": p})
 		}
 	}
-	vfCase(fmt.Sprintf("(CVfp %s %s)", cStr(p), obs), "vfp:"+p, strings.Contains(p, "_") && strings.Contains(p, "."), class, map[string]any{"path": p})
+	vfCase(fmt.Sprintf("(XW (CVfp %s %s))", cStr(p), obs), "vfp:"+p, strings.Contains(p, "_") && strings.Contains(p, "."), class, map[string]any{"path": p})
 }
 
 func TestVerifC19(t *testing.T) {
@@ -726,5 +726,15 @@ func TestVerifC19(t *testing.T) {
 	}
 	for i := 0; i < nh; i++ {
 		vfC19HeldSearch(t, rh, i)
+	}
+	// ownership of results: searches over shards whose memory is overwritten / unmapped afterwards
+	// (zz_verif_c19own_test.go); own PRNG stream
+	ro := vfNewRand(vfSeed() + 1299709)
+	no := 84
+	if vfTier() == "thorough" {
+		no = 400
+	}
+	for i := 0; i < no; i++ {
+		vfC19Own(t, ro, i)
 	}
 }
